@@ -250,21 +250,21 @@ for (var i = 0; i < K.length; i++) KC.set(K[i], i);
 function vcode(v) { if (v === undefined) return 0; if (typeof v === 'number' && v > 0 && v < 100 && v === Math.floor(v)) return v;
   if (OC.has(v)) return 100 + OC.get(v); return 9999; }
 function fcode(f) { if (f === undefined) return 0; var i = FN.indexOf(f); return i < 0 ? 9999 : i + 1; }
-function pdump(d) {
+function pdump(c, d) {
   var fl = (d.enumerable ? 2 : 0) + (d.configurable ? 1 : 0);
-  if ('get' in d || 'set' in d) return "PA " + fcode(d.get) + " " + fcode(d.set) + " " + fl;
-  return "PD " + vcode(d.value) + " " + (fl + (d.writable ? 4 : 0));
+  if ('get' in d || 'set' in d) return "PA " + c + " " + fcode(d.get) + " " + fcode(d.set) + " " + fl;
+  return "PD " + c + " " + vcode(d.value) + " " + (fl + (d.writable ? 4 : 0));
 }
 function DUMP(o) {
   var ks = Reflect.ownKeys(o), out = [];
   for (var i = 0; i < ks.length; i++) {
     var c = KC.get(ks[i]); if (c === undefined) continue;
     var d = Object.getOwnPropertyDescriptor(o, ks[i]);
-    if (d === undefined) { out.push("(" + c + ", PD 9999 0)"); continue; }
-    out.push("(" + c + ", " + pdump(d) + ")");
+    if (d === undefined) { out.push("PD " + c + " 9999 0"); continue; }
+    out.push(pdump(c, d));
   }
   var p = Object.getPrototypeOf(o);
-  var ps = p === null ? "None" : (OC.has(p) ? "(Some " + OC.get(p) + ")" : "(Some 99)");
+  var ps = p === null ? "0" : (OC.has(p) ? "" + (OC.get(p) + 1) : "99");
   return "OD " + ps + " " + (Object.isExtensible(o) ? "true" : "false") + " [" + out.join("; ") + "]";
 }
 function HIDDEN(o) { var ks = Reflect.ownKeys(o), n = 0; for (var i = 0; i < ks.length; i++) if (!KC.has(ks[i])) n++; return n; }
@@ -284,13 +284,13 @@ function MK(kind) {
 `
 
 type env struct {
-	rt   *goja.Runtime
-	objs []*goja.Object
-	keys []goja.Value // K[i]
-	fns  []goja.Value
-	log  []string
+	rt        *goja.Runtime
+	objs      []*goja.Object
+	keys      []goja.Value // K[i]
+	fns       []goja.Value
+	log       []string
 	kindNames []string
-	call func(name string, args ...goja.Value) (goja.Value, error)
+	call      func(name string, args ...goja.Value) (goja.Value, error)
 }
 
 func (e *env) objID(v goja.Value) int {
@@ -456,7 +456,7 @@ func (e *env) boolRes(v goja.Value, err error) string {
 func (e *env) dumpObj(i int) string {
 	v, err := e.call("DUMP", e.objs[i])
 	if err != nil {
-		return "OD None false [(0, PD 9999 0)]"
+		return "OD 0 false [PD 0 9999 0]"
 	}
 	return v.String()
 }
@@ -528,18 +528,15 @@ func (e *env) descObj(d *Desc) *goja.Object {
 }
 
 func descTerm(d *Desc) string {
-	v := "None"
+	v := 0
 	if d.V != nil {
-		v = fmt.Sprintf("(Some %d)", *d.V)
+		v = *d.V + 1
 	}
-	return fmt.Sprintf("(XDs %s %d %d %d %d %d)", v, d.W, d.G, d.S, d.E, d.C)
+	return fmt.Sprintf("(XDs %d %d %d %d %d %d)", v, d.W, d.G, d.S, d.E, d.C)
 }
 
 func optNat(p int) string {
-	if p < 0 {
-		return "None"
-	}
-	return fmt.Sprintf("(Some %d)", p)
+	return fmt.Sprint(p + 1)
 }
 
 func (e *env) runSrc(strict bool, body string) (goja.Value, error) {
@@ -715,13 +712,13 @@ func (e *env) exec(op Op, tags map[string]bool) (string, string, bool) {
 		if err != nil {
 			res = fmt.Sprintf("(XErr %d)", e.errClass(err))
 		} else if goja.IsUndefined(v) {
-			res = "(XDe None)"
+			res = "XD0"
 		} else {
-			s, err2 := e.call("pdump", v)
+			s, err2 := e.call("pdump", rt.ToValue(0), v)
 			if err2 != nil {
 				res = "(XErr 9)"
 			} else {
-				res = "(XDe (Some (" + s.String() + ")))"
+				res = "(XD1 (" + s.String() + "))"
 			}
 		}
 		return fmt.Sprintf("(XO %d %d)", op.O, op.K), res, true
@@ -758,7 +755,7 @@ func (e *env) exec(op Op, tags map[string]bool) (string, string, bool) {
 			} else {
 				s1, _ := e.call("KEYS", a)
 				s2, _ := e.call("KEYS", b)
-				res = "(XKs [" + joinNonEmpty(s1.String(), s2.String()) + "])"
+				res = "(XKs [" + joinNonEmpty(s1.String(), s2.String()) + "]%N)"
 			}
 		case sGo:
 			var names []string
@@ -780,7 +777,7 @@ func (e *env) exec(op Op, tags map[string]bool) (string, string, bool) {
 					}
 				}
 				s2, _ := e.call("KEYS", b)
-				res = "(XKs [" + joinNonEmpty(strings.Join(cs, "; "), s2.String()) + "])"
+				res = "(XKs [" + joinNonEmpty(strings.Join(cs, "; "), s2.String()) + "]%N)"
 				// Keys() must be the enumerable subsequence of GetOwnPropertyNames()
 				ek, _ := e.call("Object.keys", o)
 				var want []string
@@ -795,7 +792,7 @@ func (e *env) exec(op Op, tags map[string]bool) (string, string, bool) {
 				res = "(XErr 9)"
 			} else {
 				s1, _ := e.call("KEYS", a)
-				res = "(XKs [" + s1.String() + "])"
+				res = "(XKs [" + s1.String() + "]%N)"
 			}
 		}
 		return fmt.Sprintf("(XK %d)", op.O), res, true
@@ -855,9 +852,9 @@ func (e *env) exec(op Op, tags map[string]bool) (string, string, bool) {
 		case err != nil:
 			res = fmt.Sprintf("(XErr %d)", e.errClass(err))
 		case goja.IsNull(p):
-			res = "(XPr None)"
+			res = "(XPr 0)"
 		default:
-			res = fmt.Sprintf("(XPr (Some %d))", e.objID(p))
+			res = fmt.Sprintf("(XPr %d)", e.objID(p)+1)
 		}
 		return fmt.Sprintf("(XGP %d)", op.O), res, true
 	case "setp":
@@ -928,8 +925,11 @@ func runCase(c Case) vh.Record {
 			continue
 		}
 		if res == "(XB false)" {
-			refusals++
-			tags["refused:"+op.T] = true
+			switch op.T {
+			case "def", "set", "del", "setp", "prev":
+				refusals++
+				tags["refused:"+op.T] = true
+			}
 		}
 		if strings.HasPrefix(res, "(XErr") {
 			tags["unexpected-error"] = true
@@ -938,20 +938,26 @@ func runCase(c Case) vh.Record {
 		if len(e.log) > 0 {
 			tags["accessor-called"] = true
 		}
-		upd := "None"
+		upd := ""
+		dumped := false
 		if op.Dump || idx == len(c.Ops)-1 {
 			var ch []string
 			for i := 0; i < n; i++ {
 				d := e.dumpObj(i)
 				if d != last[i] {
 					last[i] = d
-					ch = append(ch, fmt.Sprintf("(%d, %s)", i, d))
+					ch = append(ch, fmt.Sprintf("U %d (%s)", i, d))
 				}
 			}
-			upd = "(Some " + vh.CoqList(ch) + ")"
+			upd = vh.CoqList(ch)
+			dumped = true
 			e.log = nil // the dump itself calls no accessor
 		}
-		steps = append(steps, fmt.Sprintf("St %s %s %s %s", term, res, upd, ev))
+		if dumped {
+			steps = append(steps, fmt.Sprintf("St %s %s %s %s", term, res, upd, ev))
+		} else {
+			steps = append(steps, fmt.Sprintf("Sn %s %s %s", term, res, ev))
+		}
 		if len(obs) < 60 {
 			obs = append(obs, strings.Trim(res, "()"))
 		}
@@ -974,7 +980,7 @@ func runCase(c Case) vh.Record {
 	}
 }
 
-const failTerm = "mkCase 0 [] [St (XIE 0) (XErr 99) None []]"
+const failTerm = "mkCase 0 [] [Sn (XIE 0) (XErr 99) []]"
 
 func main() {
 	m := vh.ParseArgs()
